@@ -45,10 +45,12 @@ Section TriaGeom.
   Definition tet_avg_edge_length (v : V) (ts : list tet) : K := avg_edge_length_keys v (flat_map tet_sym1 ts).
 
   Definition guard_len (x : K) : K := if ltb o x (eps52 o) then one o else x.
+  (* ln[ln == 0] = 1 in tria_normals / vertex_normals (after fix 4785e9e: exact-zero test) *)
+  Definition guard_zero_len (x : K) : K := if eqb o x (zero o) then one o else x.
   Definition tria_normal (v : V) (t : tri) : vec3 K :=
     let '(p0, p1, p2) := tri_pts o v t in
     let n := cross o (vsub o p1 p0) (vsub o p2 p0) in
-    vdivs o n (guard_len (norm o n)).
+    vdivs o n (guard_zero_len (norm o n)).
   Definition tria_normals (v : V) (ts : list tri) : list (vec3 K) := map (tria_normal v) ts.
 
   (* scatter-add of 3-vectors: np.add.at(n, t[:,k], crk) for k = 0,1,2 in that order *)
@@ -68,7 +70,7 @@ Section TriaGeom.
     map (scatter3_at l) (iota n).
   Definition vertex_normals (n : nat) (v : V) (ts : list tri) : result (list (vec3 K)) :=
     if negb (is_oriented ts) then Err ValueError
-    else Ok (map (fun s => vdivs o s (guard_len (norm o s))) (vertex_normal_sums n v ts)).
+    else Ok (map (fun s => vdivs o s (guard_zero_len (norm o s))) (vertex_normal_sums n v ts)).
 
   Definition tria_quality (v : V) (t : tri) : K :=
     let '(p0, p1, p2) := tri_pts o v t in
